@@ -32,9 +32,15 @@ def plan(tier):
 
 @st.composite
 def cases(draw):
-    recipe = draw(gen.problem_recipe(densities=(10, 10, 6, 12)))
-    iters = st.one_of(st.sampled_from([1, 2, 3, 30, 100, 300]), st.integers(5, 300))
-    params = draw(gen.solver_params(recipe["n"], recipe["density"], iters, cheap=False))
+    if draw(st.integers(0, 7)) == 0:
+        recipe, params = draw(gen.resolution_case())
+    else:
+        recipe = draw(gen.problem_recipe(densities=(10, 10, 6, 12)))
+        iters = st.one_of(st.sampled_from([1, 2, 3, 30, 100, 300]), st.integers(5, 300))
+        params = draw(gen.solver_params(recipe["n"], recipe["density"], iters, cheap=False))
+    sp = draw(gen.start_points(recipe))
+    if sp is not None:
+        params = dict(params, startPoint=sp)
     total = draw(st.one_of(st.integers(0, 4), st.integers(5, min(max(5, params["itersLimit"]), 120))))
     ops = draw(gen.compositions(total)) if total else []
     if draw(st.booleans()) or not ops:
@@ -52,9 +58,12 @@ def body(case):
             else:
                 run.step(op)
         except Exception as e:
-            if "outside of interval" in str(e):
-                return False, ["float-resolution-stop"]
-            raise
+            if "outside of interval" not in str(e):
+                raise
+            # the method refused a degenerate interval inside a batch: nothing was evaluated for it, so the
+            # record must still be exactly the completed trials
+            check_search_data(run, who="after DoGlobalIteration(%r) stopped at the float resolution: " % (op,))
+            return len(run.problem.log) >= 8, ["N=%d" % run.n, "float-resolution-stop"]
         steps += 1
         items = run.rec.items if len(run.rec.items) == len(run.problem.log) else None
         check_search_data(run, items=items, who="after call %d (%r): " % (steps, op))
@@ -71,7 +80,13 @@ def body(case):
             between += 1
         seen.insert(i, x)
     nontrivial = len(hist) >= 8 and between >= 1
-    classes = ["N=%d" % run.n, "calls=%d" % min(steps, 5),
+    if "Exception was thrown" in run.stdout():
+        classes_extra = ["float-resolution-stop"]
+    else:
+        classes_extra = []
+    if case["params"].get("startPoint") is not None:
+        classes_extra.append("startPoint-set")
+    classes = classes_extra + ["N=%d" % run.n, "calls=%d" % min(steps, 5),
                "trials>=8" if len(hist) >= 8 else "trials<8", "interior-insert" if between else "no-interior-insert"]
     return nontrivial, classes, {"case": case, "trials": len(hist), "interior_inserts": between}
 
